@@ -72,7 +72,7 @@ CLAIMED = {
    "DESIGN.md §7 C08"),
  "C18": ("exploration",
    "recover_from_standstill() is triggered after sampled prefixes (including the empty one) of vote-level and certificate-level pool histories; the bundle must prove the finalized slot, contain every later certificate held and every own vote for later slots, validate element by element, and bring a fresh pool to the same finalized slot (and, on consistent histories, the same ready parents for the following window).",
-   "Prefixes are sampled, not all enumerated. Votor's forwarding is checked by handing the bundle to a real Votor that has seen every event the pool emitted so far (recording All2All, no timers fire); the real standstill loop (hook H1) additionally runs in the cluster worlds.",
+   "Prefixes are sampled, not all enumerated. Votor's forwarding is checked by handing the bundle to a real Votor that has seen every event the pool emitted so far (recording All2All, no timers fire); the real standstill loop (hook H1) is checked in a cluster variant: under a long total partition every node must re-broadcast the certificates proving its finalized slot every DELTA_STANDSTILL.",
    "DESIGN.md §7 C18"),
  "C17": ("exploration",
    "Caller-thread simulation: every shipped committee strategy (IID stake-weighted / uniform / Turbine-work, decaying acceptance, partition, Fait-Accompli 1 with both fallbacks, Fait-Accompli 2) is constructed for sampled validator sets (1-40 validators; equal, skewed, whale-under-threshold, exact-threshold, heavy-tail stakes, stakes exactly on j/k seat boundaries, lamport-scale stakes, zero-stake members) and shared by 1-3 real caller threads, each drawing committees from its own seeded random source; the threads are parked at every scheduling point (hook H7 ahead of each acquisition of the sampler's shared rejection counters, call boundaries) and released one at a time by the seeded scheduler, so one seed is one interleaving. Checked per committee: equals what a private instance returns for the same set and random source (a function of set and random source only, whatever other callers do), exactly k members of the set, no zero-stake member, >= floor(f*k) seats under the Fait-Accompli samplers (exact integer arithmetic), <= ceil(max_samples) seats under decaying acceptance; construction and sampling must not panic.",
